@@ -378,6 +378,24 @@ def run(world, rep, tier, only=None):
                    "%s looks the name up itself: %s; a lookup dominates the call: %s" %
                    (callee, self_looks, bool(looks) and f.dominated_by(c, looks)))
 
+    # ------------------------------------------------------------------ C10.k an index node reserves the index tail, a leaf the leaf tail
+    # With metadata_csum an htree index block ends in struct ext2_dx_tail (8 bytes), a leaf in struct
+    # ext2_dir_entry_tail (12 bytes).  The `limit` written into a new index node must be computed with the former:
+    # one entry less than the format gives makes e2fsck and the kernel reject the node.
+    n_k = 0
+    for f in dbg.fns_in_file("lib/ext2fs/link.c"):
+        for st in f.events("S"):
+            if T.last_field(st.ev["lhs"]) != ("ext2_dx_countlimit", "limit"):
+                continue
+            n_k += 1
+            def has_sz(nm):
+                return depends_on(f, st.ev.get("rhs"), lambda y: isinstance(y, dict) and nm in str(y.get("sz", "")), depth=4)
+            uses_leaf = has_sz("ext2_dir_entry_tail")
+            rep.ob("C10.k", site(f, "index node limit computed with the index tail#%d" % n_k), not uses_leaf,
+                   "`%s` (line %d) does not derive from sizeof(struct ext2_dir_entry_tail); derives from sizeof(struct ext2_dx_tail): %s" %
+                   (st.text()[:40], st.line, has_sz("ext2_dx_tail")))
+    rep.floor("C10.k stores of an index node's limit in link.c", n_k, 1)
+
     # ------------------------------------------------------------------ C10.f link/unlink report the outcome
     for (file, name, cb, nf) in (("lib/ext2fs/unlink.c", "ext2fs_unlink", "unlink_proc", "EXT2_ET_DIR_NO_SPACE"),
                                  ("lib/ext2fs/link.c", "ext2fs_link", "link_proc", "EXT2_ET_DIR_NO_SPACE")):
